@@ -265,13 +265,42 @@ theorem text_roundtrip_byte_decimal (cfg : PCfg) (f : Nat) (n : Nat) :
     parseStmts cfg (f + 2) (".byte ".toList ++ Nat.toDigits 10 n) = .ok [.data 1 [.num n]] :=
   parseStmts_byte_decimal cfg f n
 
-/-- round trip for a fragment of the statement language (labels, `.org N`, `.memzone Z`, `.byte N`
-    with decimal numbers): whatever the renderer `renderSimple` writes for a statement, the front end
-    reads back as exactly that statement - for every name, zone and number -/
+/-- round trip for a fragment of the statement language (labels, constants `name = N`, `.org N`,
+    `.memzone Z`, `.byte / .2byte / .4byte / .8byte N`, `.fill N,V`, `.zerountil N`, `.align N` with decimal
+    numbers): whatever the renderer `renderSimple` writes for a statement, the front end reads back as
+    exactly that statement - for every name, zone and number -/
 theorem text_roundtrip_simple_statements (cfg : PCfg) (f : Nat) (s : Stmt) (txt : List Char)
     (h : renderSimple s = some txt) : parseStmts cfg (f + 2) txt = .ok [s] :=
   parse_renderSimple cfg f s txt h
 
+/-- … and with any number of labels written in front of it on the same line -/
+theorem text_roundtrip_labelled_statement (cfg : PCfg) (f : Nat) (ws : List String) (s : Stmt) (txt : List Char)
+    (hws : ∀ w ∈ ws, NameText w.toList) (h : renderSimple s = some txt) :
+    parseStmts cfg (f + 2 + ws.length) (renderLabels ws ++ txt) = .ok (ws.map .label ++ [s]) :=
+  parse_labels_renderSimple cfg f ws s txt hws h
+
+/-- render / parse round trip, fill: `.fill N,V` with the decimal spelling of ANY count and value -/
+theorem text_roundtrip_fill_decimal (cfg : PCfg) (f : Nat) (n v : Nat) :
+    parseStmts cfg (f + 2) (".fill ".toList ++ Nat.toDigits 10 n ++ ',' :: Nat.toDigits 10 v) =
+      .ok [.fill (.num n) (.num v)] :=
+  parseStmts_fill_decimal cfg f n v
+
+/-- render / parse round trip, `.zero N`: the fill statement with value 0 -/
+theorem text_roundtrip_zero_decimal (cfg : PCfg) (f : Nat) (n : Nat) :
+    parseStmts cfg (f + 2) (".zero ".toList ++ Nat.toDigits 10 n) = .ok [.fill (.num n) (.num 0)] :=
+  parseStmts_zero_decimal cfg f n
+
+/-- render / parse round trip, constant: `name = N` for every name that does not start with a dot -/
+theorem text_roundtrip_constant_decimal (cfg : PCfg) (f : Nat) (w : List Char) (hw : NameText w)
+    (hdot : w.head? ≠ some '.') (n : Nat) :
+    parseStmts cfg (f + 2) (w ++ " = ".toList ++ Nat.toDigits 10 n) = .ok [.const (String.ofList w) (.num n)] :=
+  parseStmts_const_decimal cfg f w hw hdot n
+
+example : renderSimple (.fill (.num 16) (.num 255)) = some ".fill 16,255".toList := by decide
+example : renderSimple (.const "kone" (.num 1)) = some "kone = 1".toList := by decide
+example : renderLabels ["a", "_b"] ++ ".byte 7".toList = "a: _b: .byte 7".toList := by decide
+example : NameText "kone".toList ∧ "kone".toList.head? ≠ some '.' := by
+  refine ⟨⟨by decide, ?_⟩, by decide⟩; decide
 example : renderSimple (.org (.num 4096) none) = some ".org 4096".toList := by decide
 example : renderSimple (.data 1 [.num 255]) = some ".byte 255".toList := by decide
 
